@@ -15,7 +15,7 @@ SPEC = {
 }
 
 CLAIM = {
-    "text": "(Part UPDATER: the self-update is run against a release server of the test process to its end and into failures at every stage - package missing / corrupt / truncated, executable on another file system, a directory, missing - while the configuration file next to the executable is read in a loop and compared before/after by inode, times, size and bytes: it must be complete at every read and never be written in place.) Every file-mutating system call of the real binary is recorded with strace -f -y while configuration saves (up to 20k/120k custom rules, i.e. multi-megabyte YAML), lease-database saves and filter-file saves (list bodies from empty to tens of megabytes, block and allow lists) are caused through the admin API, including the start-up write paths (schema upgrade rewrite of an old configuration, migration of a legacy leases.db). An offline checker replays the log against a small file-system model: each syscall boundary is a crash point at which the three kinds of destination path must hold a complete old or new version - no open-for-write, write, truncate or unlink of a destination, and a rename onto a destination only from a temporary file whose writes were fsynced and which is closed; the number of atomic replacements seen must cover the saves caused. A concurrent reader validates every snapshot of the three paths, and a SIGKILL campaign kills the server during save storms at random instants, validates the files left behind and restarts from them. A write-fault phase runs the binary under a file-size limit so that writes fail half-way (destinations must stay complete), destinations that are renamed away or missing for a reader are reported, downloads of one list are made to overlap (a set_url call lands inside the trickling background refresh of the same list after a restart with aged files; traced), list bodies of 17 MiB (thorough: up to 66 MiB) must be stored completely, and a package-level part stresses the DHCP lease file with concurrent v4/v6 stores while an observer validates every snapshot of leases.json (the same part also runs rounds of simultaneous DISCOVERs of one new client and checks that the lease file keeps one lease per client and per address).",
+    "text": "(Part UPDATER: the self-update is run against a release server of the test process to its end and into failures at every stage - package missing / corrupt / truncated, executable on another file system, a directory, missing - while the configuration file next to the executable is read in a loop and compared before/after by inode, times, size and bytes: it must be complete at every read and never be written in place.) Every file-mutating system call of the real binary is recorded with strace -f -y while configuration saves (up to 20k/120k custom rules, i.e. multi-megabyte YAML), lease-database saves and filter-file saves (list bodies from empty to tens of megabytes, block and allow lists) are caused through the admin API, including the start-up write paths (schema upgrade rewrite of an old configuration, migration of a legacy leases.db). An offline checker replays the log against a small file-system model: each syscall boundary is a crash point at which the three kinds of destination path must hold a complete old or new version - no open-for-write, write, truncate or unlink of a destination, and a rename onto a destination only from a temporary file whose writes were fsynced and which is closed; the number of atomic replacements seen must cover the saves caused. A concurrent reader validates every snapshot of the three paths, and a SIGKILL campaign kills the server during save storms at random instants, validates the files left behind and restarts from them. A write-fault phase runs the binary under a file-size limit so that writes fail half-way (destinations must stay complete), destinations that are renamed away or missing for a reader are reported, downloads of one list are made to overlap (a set_url call lands inside the trickling background refresh of the same list after a restart with aged files; traced), list bodies of 17 MiB (thorough: up to 66 MiB) must be stored completely, and a package-level part stresses the DHCP lease file with concurrent v4/v6 stores while an observer validates every snapshot of leases.json (the same part also runs rounds of simultaneous DISCOVERs of one new client and checks that the lease file keeps one lease per client and per address). Added later: a data directory on a full tmpfs; restarts on crash leftovers (complete files plus newer pending files that are empty, half written or garbage) and on a lease database holding a lease the server refuses; SIGTERM while a changed list trickles in through the periodic or a forced refresh; a list server that honours byte ranges and republishes the list between a broken transfer and the next request; and a part that runs the self-update against a release server of the test process (success and failures at every stage) while the configuration file next to the executable is read in a loop and compared by inode and times.",
     "note": "Crash points are syscall boundaries of the traced process; torn writes inside one write() and directory-entry durability (no fsync of the directory) are outside what a syscall trace can decide. Trusted: strace's decoding (-y path annotation).",
     "technique": "offline checker over a strace event log (crash point = syscall boundary) + concurrent reader + SIGKILL campaign on the real binary",
 }
